@@ -40,6 +40,14 @@ class Script(object):
                 return True
         return False
 
+    def head_type(self, a, b):
+        """type of the message at the head of channel a -> b (None when empty or not deliverable)"""
+        import pickle
+        q = self.sim.chan.get((a, b))
+        if not q or not self.s.view(b, a):
+            return None
+        return pickle.loads(q[0])['type']
+
     def flush(self, a, b, k=None):
         n = 0
         while self.sim.queue_len(a, b) and self.s.view(b, a) and (k is None or n < k):
@@ -860,6 +868,356 @@ def restart_empty_follower(**kw):
     return sc.rec
 
 
+def stale_tail_behind_snapshot(**kw):
+    """a deposed leader comes back with an uncommitted tail that reaches BEYOND the position of the new leader's
+    snapshot and conflicts with it from before the new leader's first kept entry: entries cannot bring it up to date
+    (both prev-entry checks fail), only the snapshot can - it must be installed although the node's log is longer
+    (seed C09-r3: refusal decided by the log end instead of the applied position leaves the node behind for ever)"""
+    sc = Script(base_cfg([1, 2, 3], chunk=64, fallback=100000), **kw)
+    s = sc.s
+    s.boot()
+    sc.elect(1)
+    sc.settle([1, 2, 3], 2)
+    s.submit(1, size=20)
+    sc.settle([1, 2, 3], 3)
+    sc.isolate(1)
+    for _ in range(12):               # a long tail nobody else ever sees
+        s.submit(1, size=20)
+    s.tick(1, 11)
+    sc.elect_until(2, [3])
+    sc.settle([2, 3], 2)
+    for _ in range(3):                # fewer committed entries than the stale tail is long
+        s.submit(2, size=20)
+    sc.settle([2, 3], 4)
+    sc.rec.do(('compact', 2))
+    sc.settle([2, 3], 3)
+    sc.rec.do(('compact', 3))
+    sc.settle([2, 3], 2)
+    RC.quiet_period(s, timeouts=6, submit_on=2)
+    sc.rec.convergence = RC.convergence_problems(sc.rec, s, None, {})
+    sc.rec.convergence_props = ('C05', 'C09')
+    return sc.rec
+
+
+def meta_ahead_restart(**kw):
+    """a journaled deposed leader with an uncommitted tail gets the first chunk of a snapshot whose commit index covers
+    that tail, its one-second timer writes .meta, it is killed and restarted: the persisted commit index must not be
+    ahead of what the node verified against the leader, or the restart executes entries nobody committed
+    (seed C06-r3: max(own commit, leader's commit) handed to the journal)"""
+    sc = Script(base_cfg([1, 2, 3], chunk=64, journal='file', dump='file'), **kw)
+    s = sc.s
+    s.boot()
+    sc.elect(1)
+    sc.settle([1, 2, 3], 2)
+    s.submit(1, size=20)
+    sc.settle([1, 2, 3], 3)
+    sc.isolate(1)
+    for _ in range(3):
+        s.submit(1, size=20)
+    s.tick(1, 11)
+    sc.elect_until(2, [3])
+    sc.settle([2, 3], 2)
+    for _ in range(8):
+        s.submit(2, size=20)
+    sc.settle([2, 3], 4)
+    sc.rec.do(('compact', 2))
+    sc.settle([2, 3], 3)
+    sc.join(1)
+    s.tick(2, 11)
+    s.deliver(2, 1)               # first message from the new leader: a snapshot chunk, commit index beyond 1's tail
+    s.tick(1, 11)                 # the one-second timer stores .meta
+    s.kill(1)
+    s.restart(1)
+    s.tick(1, 11)                 # journal replay up to the persisted commit index
+    sc.settle([1, 2, 3], 8)
+    return sc.rec
+
+
+def busy_cut_leader(**kw):
+    """a leader that is cut off from every other voter while a client keeps submitting a command before every tick, ticks
+    closer together than the heartbeat period, unbatched mode (every accepted command sends append_entries at once and
+    pushes the heartbeat timer ahead): it must still step down after the fallback timeout
+    (seed C20-r3: fallback evaluated only on ticks whose heartbeat timer has expired)"""
+    sc = Script(base_cfg([1, 2, 3], fallback=300, use_batch=False), **kw)
+    s = sc.s
+    s.boot()
+    sc.elect(1)
+    sc.settle([1, 2, 3], 3)
+    s.submit(1, size=10)
+    sc.settle([1, 2, 3], 3)
+    sc.isolate(1)
+    for _ in range(90):               # 90 * 5 = 450 time units > fallback 300
+        s.submit(1, size=10)
+        s.tick(1, 5)
+    s.tick(1, 11)
+    return sc.rec
+
+
+def big_entry_lost_predecessor(**kw):
+    """a small entry is lost in flight when the connection drops and comes back at once; the next command is bigger
+    than a batch and goes out in pieces whose previous entry the follower lacks: the follower must refuse the entry after
+    its last piece (or at once) without raising, and be brought up to date afterwards
+    (seed C11-r3: start piece refused without opening the buffer, later pieces appended to the idle buffer)"""
+    sc = Script(base_cfg([1, 2], batch=100), **kw)
+    s = sc.s
+    s.boot()
+    sc.elect(1)
+    sc.settle([1, 2], 3)
+    s.submit(1, size=10)
+    s.tick(1, 11)
+    s.tick(1, 11)                     # the small entry is on its way to 2
+    s.drop(1, 2)
+    s.drop(2, 1)                      # both ends notice: what was queued is gone
+    s.connect(1, 2)
+    s.connect(2, 1)
+    s.submit(1, size=350)             # four pieces at batch 100
+    s.tick(1, 11)
+    s.tick(1, 11)
+    sc.flush(1, 2)
+    sc.settle([1, 2], 6)
+    s.submit(1, size=1200)
+    sc.settle([1, 2], 6)
+    return sc.rec
+
+
+def reelected_leader_membership_gate(**kw):
+    """a node that led before (and handled membership changes then) is elected again; a membership change reaches it
+    before the no-op of its new term is committed: it must be refused, and accepted once the own-term entry is committed
+    (seed C10-r3: one merged gate marker that is only cleared lazily and not re-armed on re-election)"""
+    sc = Script(base_cfg([1, 2, 3], dyn=True), **kw)
+    s = sc.s
+    s.boot()
+    sc.elect(1)
+    sc.settle([1, 2, 3], 3)
+    s.submit(1, size=10)
+    sc.settle([1, 2, 3], 3)
+    sc.rec.do(('admin', 1, True, 4, 903))     # a change and its reversal: the member set is {1,2,3} again
+    sc.settle([1, 2, 3], 4)
+    sc.rec.do(('admin', 1, False, 4, 904))
+    sc.settle([1, 2, 3], 4)
+    sc.isolate(1)
+    s.tick(1, 11)
+    sc.elect_until(2, [3])
+    sc.settle([2, 3], 3)
+    s.submit(2, size=10)
+    sc.settle([2, 3], 3)
+    sc.join(1)
+    sc.settle([1, 2, 3], 4)                    # 1 is a follower of the new term and caught up
+    sc.isolate(2)
+    s.tick(3, 11)
+    # 1 stands again; the votes arrive, its append_entries of the new term stay in the channel
+    for _ in range(3):
+        if sc.sim.nodes[1]._SyncObj__raftState == 2:
+            break
+        s.tick(1, sc.rec.cfg['tmin'] + sc.rec.cfg['tspan'] + 1)
+        while sc.head_type(1, 3) == 'request_vote':
+            s.deliver(1, 3)
+        while sc.head_type(3, 1) == 'response_vote':
+            s.deliver(3, 1)
+    sc.rec.do(('admin', 1, True, 4, 901))     # own-term no-op not committed yet: must be refused
+    s.tick(1, 11)
+    sc.join(2)
+    sc.settle([1, 2, 3], 4)
+    sc.rec.do(('admin', 1, True, 4, 902))     # now allowed
+    sc.settle([1, 2, 3], 4)
+    sc.rec.do(('admin', 1, False, 4, 905))
+    sc.settle([1, 2, 3], 4)
+    return sc.rec
+
+
+def compacted_stale_leader_backoff(**kw):
+    """a leader compacts its log, is cut off and keeps accepting a few commands (an uncommitted tail in the term of the
+    entries it retained); the others elect a new leader that has not compacted and commits its own commands; after the
+    heal the stale node must be walked back to the divergence point and brought up to date
+    (seed C05-r3: skip-a-whole-term back-off that ignores the follower's own compaction and cycles for ever)"""
+    sc = Script(base_cfg([1, 2, 3], fallback=100000, batch=65536), **kw)   # one append_entries carries the whole tail
+    s = sc.s
+    s.boot()
+    sc.elect(1)
+    sc.settle([1, 2, 3], 2)
+    for _ in range(4):
+        s.submit(1, size=10)
+    sc.settle([1, 2, 3], 4)
+    sc.rec.do(('compact', 1))
+    sc.settle([1, 2, 3], 3)
+    for x in (2, 3):                  # only 1 notices the break: the others go on sending to it, and a new leader's
+        s.drop(1, x)                  # next index for 1 advances optimistically beyond the point where the logs part
+    for _ in range(2):
+        s.submit(1, size=10)
+    s.tick(1, 11)
+    sc.elect_until(2, [3])
+    sc.settle([2, 3], 2)
+    for _ in range(5):
+        s.submit(2, size=10)
+    sc.settle([2, 3], 4)
+    RC.quiet_period(s, timeouts=6, submit_on=1)
+    sc.rec.convergence = RC.convergence_problems(sc.rec, s, None, {})
+    return sc.rec
+
+
+def raising_replay_after_restart(**kw):
+    """commands whose method raises sit in the journal of a node that is killed and restarted: the replay from the
+    journal steps over them like the first execution did, later entries are applied, nothing escapes the tick
+    (seed C12-r3: the exception of a replayed journal entry re-raised)"""
+    sc = Script(base_cfg([1, 2, 3], journal='file'), **kw)
+    s = sc.s
+    s.boot()
+    sc.elect(1)
+    sc.settle([1, 2, 3], 2)
+    s.submit(1, size=5)
+    s.submit(1, size=5, raises=True)
+    s.submit(2, size=5, raises=True)
+    s.submit(1, size=5)
+    sc.settle([1, 2, 3], 5)
+    s.kill(2)
+    s.restart(2)
+    sc.settle([1, 2, 3], 4)
+    s.submit(1, size=5, raises=True)
+    s.submit(1, size=5)
+    sc.settle([1, 2, 3], 4)
+    s.kill(3)
+    s.kill(2)
+    s.restart(3)
+    s.restart(2)
+    sc.settle([1, 2, 3], 5)
+    return sc.rec
+
+
+def observer_of_snapshot_installed_voter(**kw):
+    """dynamic membership; a voter with a read-only node attached falls behind, is brought up to date by a snapshot
+    (which carries the member set) and later becomes leader with the observer's connection still up: the observer must
+    follow the new leader and converge (seed C18-r3: installing the snapshot's member set pruned the connected set to
+    the voters, so the new leader never sent anything to its observers)"""
+    RO = RO_BASE + 1
+    sc = Script(base_cfg([1, 2, 3], dyn=True, chunk=64, fallback=300), **kw)
+    s = sc.s
+    s.boot()
+    sc.elect(1)
+    sc.settle([1, 2, 3], 3)
+    s.clock.setdefault(RO, 0)
+    s.clock[RO] += 1
+    sc.rec.do(('restart', RO, [1, 2, 3], s.clock[RO], s.rnd()))
+    s.alive.add(RO)
+    s.connect(RO, 3)
+    s.connect(3, RO)                  # the observer talks to voter 3 only
+    s.submit(1, size=10)
+    sc.settle([1, 2, 3, RO], 3)
+    for x in (1, 2):                  # 3 stalls (its observer stays attached)
+        s.drop(3, x)
+        s.drop(x, 3)
+    for _ in range(6):
+        s.submit(1, size=10)
+    sc.settle([1, 2], 4)
+    sc.rec.do(('compact', 1))
+    sc.settle([1, 2], 3)
+    for x in (1, 2):
+        s.connect(3, x)
+        s.connect(x, 3)
+    sc.settle([1, 2, 3, RO], 8)       # 3 is caught up by snapshot
+    sc.isolate(1)                     # the old leader goes away
+    for _ in range(4):
+        if sc.sim.nodes[3]._SyncObj__raftState == 2:
+            break
+        sc.elect(3, [2])
+    s.submit(3, size=10)
+    s.submit(RO, size=10)
+    for _ in range(12):
+        sc.settle([2, 3, RO], 1)
+    states = dict((n, (sc.sim.nodes[n]._SyncObj__raftLastApplied, tuple(sc.sim.nodes[n].history))) for n in (2, 3, RO))
+    probs = []
+    if sc.sim.nodes[3]._SyncObj__raftState == 2 and len(set(states.values())) > 1:
+        probs.append('the read-only node attached to the leader does not converge: %r'
+                     % dict((n, (a, len(h))) for n, (a, h) in states.items()))
+    sc.rec.convergence = probs
+    sc.rec.convergence_props = ('C05', 'C18')
+    return sc.rec
+
+
+def readded_address_partial_replay(**kw):
+    """KF-C10-1 (found by the membership proof worker, AbstractM/Examples.v run D): addresses that were members before come
+    back as fresh, empty processes - which the operator discipline of C10 allows.  A joiner is started with the CURRENT
+    member list and then replays the membership entries of the WHOLE log on top of it; when some address was removed and
+    later added again, a log prefix that ends between the two entries shrinks the joiner's member set to one that never
+    existed.  Here: 5 voters, node 2 hears nothing from the start (its table stays the initial one); in term 1 the
+    leader commits rem 3, rem 4, add 3 (fresh), add 4 (fresh), rem 5, and appends add 5 (fresh node 5, started with
+    the current list {1,2,3,4}).  Node 5 receives the entries up to 'rem 4' only: its member set becomes {1,2}; node 2
+    still lists address 5, so the two are connected; node 5 times out, node 2 grants, node 5 is leader of term 2 with 2
+    votes and commits a no-op at a position where node 1 committed 'add 3': committed entries diverge."""
+    def fresh(n, oth):
+        s.clock[n] = s.clock.get(n, 0) + 1
+        sc.rec.do(('restart', n, oth, s.clock[n], s.rnd()))
+        s.alive.add(n)
+
+    def others_of(n):
+        from harness.sim import nid_of
+        return sorted(nid_of(x) for x in sc.sim.nodes[n]._SyncObj__otherNodes)
+    sc = Script(base_cfg([1, 2, 3, 4, 5], dyn=True, batch=100), **kw)
+    s = sc.s
+    s.boot()
+    sc.isolate(2)                                   # node 2 hears nothing from the start
+    sc.elect_until(1, [3, 4, 5])
+    sc.settle([1, 3, 4, 5], 3)
+    s.submit(1, size=10)
+    sc.settle([1, 3, 4, 5], 3)
+    sc.rec.do(('admin', 1, False, 3, 901))
+    sc.settle([1, 3, 4, 5], 4)
+    s.kill(3)                                       # removal committed: shut down
+    sc.rec.do(('admin', 1, False, 4, 902))
+    sc.settle([1, 4, 5], 4)
+    s.kill(4)
+    fresh(3, [1, 2, 5])                             # address 3 again: empty process, current member list
+    sc.rec.do(('admin', 1, True, 3, 903))
+    s.tick(1, 11)
+    s.tick(1, 11)
+    sc.flush(1, 5)
+    s.tick(5, 11)
+    for x in (1, 5):
+        s.connect(3, x)
+        s.connect(x, 3)
+    sc.settle([1, 3, 5], 8)
+    fresh(4, [1, 2, 3, 5])
+    sc.rec.do(('admin', 1, True, 4, 904))
+    s.tick(1, 11)
+    s.tick(1, 11)
+    sc.flush(1, 5)
+    sc.flush(1, 3)
+    s.tick(5, 11)
+    s.tick(3, 11)
+    for x in (1, 3, 5):
+        s.connect(4, x)
+        s.connect(x, 4)
+    sc.settle([1, 3, 4, 5], 8)
+    sc.rec.do(('admin', 1, False, 5, 905))
+    sc.settle([1, 3, 4, 5], 4)
+    s.kill(5)
+    fresh(5, [1, 2, 3, 4])
+    sc.rec.do(('admin', 1, True, 5, 906))
+    s.tick(1, 11)
+    s.connect(5, 1)
+    s.connect(1, 5)
+    s.tick(1, 11)
+    s.tick(1, 11)
+    for _ in range(40):                             # node 5 gets a prefix of the log: up to 'rem 4', not 'add 3'
+        if others_of(5) == [1, 2]:
+            break
+        if sc.sim.queue_len(1, 5):
+            s.deliver(1, 5)
+        elif sc.sim.queue_len(5, 1):
+            s.deliver(5, 1)
+        else:
+            s.tick(1, 11)
+    s.drop(5, 1)
+    s.drop(1, 5)
+    s.connect(5, 2)
+    s.connect(2, 5)
+    for _ in range(3):
+        if sc.sim.nodes[5]._SyncObj__raftState == 2:
+            break
+        sc.elect(5, [2])
+    sc.settle([5, 2], 6)
+    return sc.rec
+
+
 SCENARIOS = {'d7': d7, 'd8': d8, 'd17': d17, 'd16': d16, 'd1': d1, 'd20': d20,
              'snapshot_catchup': snapshot_catchup, 'forwarded': forwarded,
              'restart_double_vote': restart_double_vote, 'd18': d18, 'd10': d10, 'd19': d19, 'd6': d6,
@@ -867,7 +1225,15 @@ SCENARIOS = {'d7': d7, 'd8': d8, 'd17': d17, 'd16': d16, 'd1': d1, 'd20': d20,
              'stale_cursor': stale_cursor, 'compact_during_install': compact_during_install,
              'member_rollback': member_rollback, 'backoff_burst': backoff_burst, 'snapshot_members': snapshot_members, 'old_snapshot_again': old_snapshot_again, 'dump_kill_points': dump_kill_points, 'install_drops_acked': install_drops_acked,
              'snapshot_at_membership_entry': snapshot_at_membership_entry,
-             'restart_empty_follower': restart_empty_follower}
+             'restart_empty_follower': restart_empty_follower,
+             'stale_tail_behind_snapshot': stale_tail_behind_snapshot,
+             'meta_ahead_restart': meta_ahead_restart, 'busy_cut_leader': busy_cut_leader,
+             'big_entry_lost_predecessor': big_entry_lost_predecessor,
+             'reelected_leader_membership_gate': reelected_leader_membership_gate,
+             'compacted_stale_leader_backoff': compacted_stale_leader_backoff,
+             'raising_replay_after_restart': raising_replay_after_restart,
+             'observer_of_snapshot_installed_voter': observer_of_snapshot_installed_voter,
+             'readded_address_partial_replay': readded_address_partial_replay}
 NAMES = sorted(SCENARIOS)
 
 
